@@ -27,10 +27,12 @@ FUNCS = [
     dict(name='s', arity=1, ret='str', argk=['str']),
     dict(name='k', arity=1, ret='cref', argk=['cint']),
     dict(name='z', arity=0, ret='void', argk=[]),
+    dict(name='v', arity=1, ret='void', argk=['vec']),
 ]
 
 # matcher kinds (must match sim::MK in shape.hpp)
-MK = ['ANY', 'VAL', 'EQ', 'NE', 'LT', 'LE', 'GT', 'GE', 'NOTEQ', 'ANYOF', 'TYPEDANY']
+MK = ['ANY', 'VAL', 'EQ', 'NE', 'LT', 'LE', 'GT', 'GE', 'NOTEQ', 'ANYOF', 'TYPEDANY',
+      'RINC2', 'RINC11', 'RIS', 'RSTART', 'RENDS', 'RPERM', 'RALL', 'RNONE', 'RANY']
 # with predicate kinds (sim::WK)
 WK = ['LE', 'GE', 'NE', 'EQ', 'LT12', 'NESNAP', 'LTMAC']
 # bounds forms (sim::BF)
@@ -65,7 +67,17 @@ def matcher_text(kind, argk, vi):
         return 'trompeloeil::_'
     if kind == 'TYPEDANY':
         return {'int': 'ANY(int)', 'intref': 'ANY(int&)', 'cint': 'ANY(const int&)', 'str': 'ANY(std::string&)',
-                'uptr': 'ANY(std::unique_ptr<sim::Tracked>)'}[argk]
+                'uptr': 'ANY(std::unique_ptr<sim::Tracked>)', 'vec': 'ANY(const std::vector<int>&)'}[argk]
+    if argk == 'vec':
+        return {'RINC2': 'trompeloeil::range_includes(%s, %s)' % (v, v),
+                'RINC11': 'trompeloeil::range_includes(%s, %s + 1)' % (v, v),
+                'RIS': 'trompeloeil::range_is(%s, %s + 1, %s)' % (v, v, v),
+                'RSTART': 'trompeloeil::range_starts_with(%s)' % v,
+                'RENDS': 'trompeloeil::range_ends_with(%s + 1, %s)' % (v, v),
+                'RPERM': 'trompeloeil::range_is_permutation(%s + 1, %s, %s)' % (v, v, v),
+                'RALL': 'trompeloeil::range_all_of(trompeloeil::ge(%s))' % v,
+                'RNONE': 'trompeloeil::range_none_of(%s)' % v,
+                'RANY': 'trompeloeil::range_any_of(%s)' % v}[kind]
     if kind == 'VAL':
         return v
     if kind in ('EQ', 'NE', 'LT', 'LE', 'GT', 'GE'):
@@ -114,6 +126,8 @@ def gen_shape(rng, sid, fn, force=None):
             kind = rng.choice(['ANY', 'ANY', 'TYPEDANY'])
         elif ak == 'str':
             kind = rng.choice(['ANY', 'VAL', 'EQ', 'NE', 'ANYOF', 'TYPEDANY'])
+        elif ak == 'vec':
+            kind = rng.choice(['ANY', 'TYPEDANY', 'RINC2', 'RINC2', 'RINC11', 'RIS', 'RSTART', 'RENDS', 'RPERM', 'RALL', 'RNONE', 'RANY'])
         elif ak in ('intref', 'cint'):
             kind = rng.choice(['ANY', 'VAL', 'EQ', 'NE', 'LT', 'GE', 'TYPEDANY'])
         else:
@@ -122,6 +136,8 @@ def gen_shape(rng, sid, fn, force=None):
             kind = force['mk'][i]
         if ak == 'str' and kind == 'VAL':
             kind = 'EQ'   # a std::string& parameter cannot bind to a temporary value; eq() compares without binding
+        if ak == 'vec' and kind == 'VAL':
+            kind = 'RINC2'
         ms.append((kind, i))  # operand index = parameter index
     d['matchers'] = ms
     # with clauses
@@ -319,7 +335,7 @@ def main():
                        dict(bf='AL1', mk=any_m, nwith=1, nseq=0, nse=1, rk='LRSTR_VAR', vform=False)]
         for fo in forced:
             shapes.append(gen_shape(rng, sid, fn, fo)); sid += 1
-    counts = [60, 26, 28, 12, 12, 12, 16, 14, 14]
+    counts = [60, 26, 28, 12, 12, 12, 16, 14, 14, 22]
     for fn, n in enumerate(counts):
         for _ in range(n):
             shapes.append(gen_shape(rng, sid, fn)); sid += 1
@@ -408,6 +424,8 @@ def gen_wide(out):
         L.append('  MAKE_MOCK%d(w%d, int(%s));' % (n, n, ', '.join(TYPES[m] for m in modes_for(n))))
     for n in (2, 7, 12):
         L.append('  MAKE_CONST_MOCK%d(cw%d, int(%s));' % (n, n, ', '.join(TYPES[m] for m in modes_for(n, 3))))
+    L.append('  MAKE_MOCK15(rw15, int&(%s));' % ', '.join(['int&'] * 15))
+    L.append('  MAKE_CONST_MOCK12(rp12, const int*(%s));' % ', '.join(['const int&'] * 12))
     L.append('};')
     L.append('struct MockIWide : trompeloeil::mock_interface<IWide> {')
     L.append('  IMPLEMENT_MOCK3(iw3);')
@@ -468,6 +486,26 @@ def gen_wide(out):
         L += emit_case(cid, 'MockWide', 'cw%d' % n, modes_for(n, 3), const_call=True); cid += 1
     L += emit_case(cid, 'MockIWide', 'iw3', ['val', 'ref', 'cref']); cid += 1
     L += emit_case(cid, 'MockIWide', 'iw5', ['ptr', 'val', 'ref', 'cref', 'rref'], const_call=True); cid += 1
+    # reference / pointer returns by identity: RETURN(_k) must hand the caller that very object, for every position
+    def emit_ident_case(cid, fname, n, k, ptr):
+        body = ['static void wide_case_%d(WideRun& R, int base) {' % cid,
+                '  MockWide m; R.n = %d; R.name = "%s"; R.ident = %d;' % (n, fname, k)]
+        body.append('  int a[%d]; for (int i = 0; i < %d; ++i) a[i] = base + i;' % (n, n))
+        wild = ', '.join(['trompeloeil::_'] * n)
+        body.append('  auto e = NAMED_REQUIRE_CALL(m, %s(%s)).RETURN(%s_%d);' % (fname, wild, '&' if ptr else '', k))
+        args = ', '.join('a[%d]' % i for i in range(n))
+        if ptr:
+            body.append('  const MockWide& cm = m; const int* r = cm.%s(%s); R.ret_addr = r;' % (fname, args))
+        else:
+            body.append('  int& r = m.%s(%s); R.ret_addr = &r;' % (fname, args))
+        body.append('  R.want_ret = &a[%d]; R.satisfied = e->is_satisfied();' % (k - 1))
+        body.append('}')
+        cases.append((cid, n))
+        return body
+    for k in range(1, 16):
+        L += emit_ident_case(cid, 'rw15', 15, k, False); cid += 1
+    for k in range(1, 13):
+        L += emit_ident_case(cid, 'rp12', 12, k, True); cid += 1
     L.append('const int wide_case_count = %d;' % cid)
     L.append('void wide_run(int c, WideRun& R, int base) {')
     L.append('  switch (c) {')
